@@ -81,7 +81,7 @@ func (r *harnessRun) summary() *harnessSummary {
 	return s
 }
 
-var violationKinds = map[string]bool{"violation": true, "panic": true, "stale-read": true, "double-put": true, "use-after-put": true, "escape": true, "frame": true, "race": true}
+var violationKinds = map[string]bool{"violation": true, "panic": true, "stale-read": true, "double-put": true, "use-after-put": true, "escape": true, "frame": true, "race": true, "nontermination": true}
 
 // ---------- native replay ----------
 
